@@ -61,6 +61,8 @@ func genSessionOps(rng *RNG, c nwCfg, n int, nkeys int, farFuture bool) []wop {
 			ts = last[k] + 3*c.timeout + int64(rng.Intn(int(c.timeout)+1))
 		case 4: // out of order within tolerance
 			ts = maxTs - int64(rng.Intn(int(c.ooo)+1))
+		case 6: // late and well before the key's latest session (not absorbable by it)
+			ts = last[k] - c.ooo - 1 - c.timeout*int64(1+rng.Intn(4)) - int64(rng.Intn(int(c.timeout)+1))
 		case 5: // late
 			ts = maxTs - c.ooo - 1 - int64(rng.Intn(int(2*c.timeout)+1))
 		default:
@@ -195,9 +197,17 @@ func runC10(tier string, seed uint64, o *Out) error {
 	if err := sessionLine(o, "C10", nwCfg{1000, 0, 0}, ff, "corpus"); err != nil {
 		return err
 	}
+	// late rows of a key before the start of its retained fired session: not absorbed (consecutive timestamps of a
+	// reported session differ by at most the timeout; window_start is the earliest timestamp)
+	cross := []wop{{kind: 'A', id: 1, ts: 1000, key: "1"}, {kind: 'A', id: 2, ts: 1005, key: "2"}, {kind: 'A', id: 3, ts: 1100, key: "3"}, {kind: 'X'},
+		{kind: 'A', id: 4, ts: 1003, key: "2"}, {kind: 'A', id: 5, ts: 900, key: "1"}, {kind: 'A', id: 6, ts: 1007, key: "2"}, {kind: 'X'}}
+	if err := sessionLine(o, "C10", nwCfg{10, 0, 500}, cross, "corpus"); err != nil {
+		return err
+	}
 	for i := 0; i < ncases; i++ {
 		c := nwCfg{timeout: []int64{2, 10, 1000, int64(time.Second)}[rng.Intn(4)]}
 		c.ooo = []int64{0, c.timeout / 2, 3 * c.timeout}[rng.Intn(3)]
+		c.late = []int64{0, 0, c.timeout, 5 * c.timeout}[rng.Intn(4)] // late rows absorbed by a fired session of their key
 		n := 5 + rng.Intn(36)
 		ops := genSessionOps(rng, c, n, 1+rng.Intn(3), rng.Intn(5) == 0)
 		if i%25 == 3 {
